@@ -154,6 +154,7 @@ CONFIG_TEXT = {
     "copy": "get_converter().copy()",
     "prefer": "get_converter(cattrs.Converter(prefer_attrib_converters=True))",
     "omitdefault": "get_converter(cattrs.Converter(omit_if_default=True))",
+    "interrupted-first": "the process's first get_converter() is interrupted by KeyboardInterrupt in the 50th attrs.resolve_types call, caught, and get_converter() is called again",
 }
 
 
@@ -277,11 +278,12 @@ def main(argv: List[str]) -> int:
             ob(True, "", "")
     # ------------------------------------------------------------------ (d) creation histories (bounded: length <= 2 over 4 configurations), subprocess-isolated
     kinds = ["fresh", "nodetail", "forbid", "custom", "fresh+hook", "lenient"]
-    same_as_fresh = ["copy", "prefer", "omitdefault"]  # configurations whose results must equal those of a fresh converter
+    same_as_fresh = ["copy", "prefer", "omitdefault", "interrupted-first"]  # configurations whose results must equal those of a fresh converter
     specs = [("alone", k, {"history": [k], "report": [0]}) for k in kinds]
     for a in kinds:
         for b in kinds:
             specs.append(("after", (a, b), {"history": [a, b], "report": [0, 1], "use_all": True}))
+    specs.append(("alone-check", "nodetail", {"history": ["nodetail"], "report": [0]}))
     specs.append(("count", "fresh", {"history": ["fresh"] * 5, "report": [0, 4], "use_all": True}))
     for k in same_as_fresh:
         specs.append(("config", k, {"history": [k], "report": [0]}))
@@ -308,6 +310,11 @@ def main(argv: List[str]) -> int:
             ob(r["0"] == alone.get("fresh"), f"config:{k}", f"a converter obtained as '{k}' ({CONFIG_TEXT[k]}) does not behave like a fresh get_converter(): {_first_delta(alone.get('fresh'), r['0'])}", found=True, configuration=k, replay=f"tools/c19_probe.py '{json.dumps(spec)}'")
         if kind == "config-after":
             ob(r["1"] == alone.get("fresh") and r["2"] == alone.get("fresh"), f"config:{k}:history", f"creating a '{k}' converter between two fresh ones changes a result: {_first_delta(alone.get('fresh'), r['1'] if r['1'] != alone.get('fresh') else r['2'])}", found=True, configuration=k)
+        if kind == "alone-check" and k == "nodetail":
+            # detailed validation off: the same inputs are accepted / rejected and every accepted input gives the same object and the same JSON
+            # (only the class of the exception may differ)
+            norm = lambda rs: [x[:2] + (x[2:] if x[1] == "ok" or x[0] == "ctor" else []) for x in (rs or [])]
+            ob(norm(alone.get("nodetail")) == norm(alone.get("fresh")), "config:nodetail:results", f"a converter built on cattrs.Converter(detailed_validation=False) gives another result than a fresh one for the same input: {_first_delta(norm(alone.get('fresh')), norm(alone.get('nodetail')))}", found=True, configuration="nodetail", replay=f"tools/c19_probe.py '{json.dumps({'history': ['nodetail'], 'report': [0]})}'")
         if kind == "count":
             ob(r["0"] == alone["fresh"] and r["4"] == alone["fresh"], "history:count", f"the fifth fresh converter differs from the first: {_first_delta(alone['fresh'], r['4'])}", found=True)
     # ------------------------------------------------------------------ (e) bounded schedule exploration: one pre-emption at the k-th line event inside lsprotocol (thorough: all points; quick: a sample)
